@@ -568,6 +568,7 @@ def default_config_stage(ctx: Ctx, fname: str) -> Result:
             res.states += 1
             case = {"family": "default-config:" + fname, "k": 0, "rewriting": True, "history": mask, "policy": ["default-config", len(batches), 0]}
             text_rc = None
+            cfg = DefaultConfig()
             for bi, b in enumerate(batches):
                 if bi % 2 == 1:
                     # every second batch arrives from ANOTHER process (a `monkeytype run` elsewhere) through a connection
@@ -589,8 +590,7 @@ def default_config_stage(ctx: Ctx, fname: str) -> Result:
                     if status != 0:
                         raise HarnessError(f"writer process failed (status {status})")
                 else:
-                    cfg = DefaultConfig()
-                    logger = cfg.trace_logger()
+                    logger = cfg.trace_logger()   # (ONE config object per history, as get_default_config() hands out)
                     for i in b:
                         logger.log(traces[i])
                     logger.flush()
